@@ -105,10 +105,11 @@ def conn_event(mesh, with_coords=True, scale=None):
         else:
             ev['f2e'] = []
         opt('bedges', lambda: ids(mesh.boundary_edges()), [])
+        opt('iedges', lambda: ids(mesh.interior_edges()), [])
         opt('p2e', lambda: rows_of_csc(mesh.p2e)[0], [])
         opt('e2t', lambda: rows_of_csc(mesh.e2t)[0], [])
     else:
-        ev.update(edges=[], t2e=[], f2e=[], bedges=[], p2e=[], e2t=[])
+        ev.update(edges=[], t2e=[], f2e=[], bedges=[], iedges=[], p2e=[], e2t=[])
     def count(fn):
         try:
             return int(fn())
